@@ -57,7 +57,7 @@ func c13Audit(s *drv.Server, bucket string, m *model.VersionModel, keys []string
 		}
 		return &vfail{step: stepNo, anom: anom, trig: t, what: what}
 	}
-	prefixes := []string{"", "d", "dir/", "v", "w", "zz"}
+	prefixes := []string{"", "d", "dir/", "v", "w", "zz", "a", "e"}
 	delims := []string{"", "/"}
 	if !deep {
 		prefixes = []string{""}
@@ -397,7 +397,7 @@ func descAll(es []drv.VersionEntry) []string {
 
 func runC13(c *Ctx) {
 	r := c.R
-	r.SetRule("version histories as in C05 over keys {vk, dir/v2, dir/v3, w} (single-version keys, latest = delete marker, never-versioned, suspended, re-enabled); after every step ListObjectVersions is compared with VersionModel (every remaining version once, grouped by ascending key, one IsLatest = what an unqualified GET serves, sizes/ETags, 'null' ids before versioning), and at the end of each history for 6 prefixes x {no delimiter,'/'} unpaginated, walked with NextKeyMarker/NextVersionIdMarker for every max-keys 1..n+1, and started at every (key, version) pair; memory backend; distinct = distinct histories")
+	r.SetRule("version histories as in C05 over keys {vk, dir/v2, dir/v3, w} or {a0, dir/v2, dir/v3, e/f, w} (single-version keys, latest = delete marker, never-versioned, suspended, re-enabled); after every step ListObjectVersions is compared with VersionModel (every remaining version once, grouped by ascending key, one IsLatest = what an unqualified GET serves, sizes/ETags, 'null' ids before versioning), and at the end of each history for 8 prefixes x {no delimiter,'/'} unpaginated, walked with NextKeyMarker/NextVersionIdMarker for every max-keys 1..n+1, and started at every (key, version) pair; memory backend; distinct = distinct histories")
 	nh := r.Pick(2500, 50000)
 	exhLen := r.Pick(4, 5)
 	alpha := []vstep{{Op: "put", Key: "vk"}, {Op: "delete", Key: "vk"}, {Op: "delete-version", Key: "vk", Which: 0}, {Op: "delete-version", Key: "vk", Which: 9},
@@ -439,6 +439,11 @@ func runC13(c *Ctx) {
 			} else {
 				rng := gen.Rng(r.Seed, "C13", idx)
 				keys = []string{"vk", "dir/v2", "dir/v3", "w"}
+				if idx%2 == 1 {
+					// a key that sorts before the rolled-up group, and two groups: a page may then end
+					// right before a key that belongs to a common prefix not yet reported
+					keys = []string{"a0", "dir/v2", "dir/v3", "e/f", "w"}
+				}
 				steps = genVersionHistory(rng, keys, 8+rng.Intn(25))
 				hist = 2000000 + idx
 			}
